@@ -27,21 +27,27 @@ try:
     print("demo clean rc=%d patched rc=%d" % (r0.returncode, r1.returncode))
 finally:
     sh("git -C /repo worktree remove --force %s" % wt)
-assert sh("git -C /repo status --porcelain").stdout.strip() == "", "/repo not clean"
-ap = sh("git -C /repo apply %s/patch.diff" % src)
+# the checks run against a scratch worktree of /repo HEAD with the patch applied (VERIF_REPO), their evidence and replay files
+# go to a scratch directory (VERIF_OUT): /repo and /verif/evidence are not touched
+wt2 = "/tmp/mvc_%s" % sid
+out2 = "/tmp/mvo_%s" % sid
+sh("git -C /repo worktree remove --force %s" % wt2)
+assert sh("git -C /repo worktree add -q --detach %s HEAD" % wt2).returncode == 0
+ap = sh("git -C %s apply %s/patch.diff" % (wt2, src))
 assert ap.returncode == 0, ap.stderr
+os.makedirs(out2, exist_ok=True)
 meta["checks"] = {}
 try:
     for c in checks:
         t0 = time.time()
-        r = sh("cd %s && timeout 1500 ./check %s --tier quick" % (V, c))
+        r = sh("cd %s && VERIF_REPO=%s VERIF_OUT=%s timeout 1500 ./check %s --tier quick" % (V, wt2, out2, c))
         vio = [l for l in r.stdout.splitlines() if l.startswith("VIOLATION")]
         meta["checks"][c] = {"rc": r.returncode, "violations": len(vio), "first": vio[:1], "wall_s": round(time.time() - t0, 1),
                              "tail": r.stdout.splitlines()[-1:] }
         print("check %s rc=%d violations=%d  %s" % (c, r.returncode, len(vio), (vio[:1] or [""])[0][:200]))
 finally:
-    sh("git -C /repo checkout -- .")
-assert sh("git -C /repo status --porcelain").stdout.strip() == ""
+    sh("git -C /repo worktree remove --force %s" % wt2)
+    shutil.rmtree(out2, ignore_errors=True)
 meta["confirmed"] = meta.get("demo_clean_rc") == 0 and meta.get("demo_patched_rc") not in (0, None)
 meta["detected_by"] = [c for c, x in meta["checks"].items() if x["rc"] == 1]
 d = os.path.join(V, "seeded", sid)
@@ -51,6 +57,6 @@ for f in ("patch.diff", "demo.py", "notes.md"):
         shutil.copy(os.path.join(src, f), d)
 notes = open(os.path.join(d, "notes.md")).read() if os.path.exists(os.path.join(d, "notes.md")) else ""
 meta["needs"] = notes[:1500]
-meta["ran"] = "demo.py on a fresh worktree of /repo HEAD with and without the patch; ./check <prop> --tier quick on /repo with the patch applied, then git checkout"
+meta["ran"] = "demo.py on a fresh worktree of /repo HEAD with and without the patch; ./check <prop> --tier quick with VERIF_REPO pointing to a scratch worktree of /repo HEAD with the patch applied"
 json.dump(meta, open(os.path.join(d, "meta.json"), "w"), indent=1)
 print("confirmed=%s detected_by=%s" % (meta["confirmed"], meta["detected_by"]))
